@@ -55,10 +55,13 @@ from dissect.cobaltstrike import c_c2 as CC2
 from dissect.cobaltstrike import client as CL
 
 from . import common as C
+from . import pyuval_t07
 
 ID = "C07"
 DRIVER = "drv_c07"
 GEN = ["c2struct", "c16_unicode"]
+GEN += ["py_utils", "py_c2u", "py_c2t", "py_c2", "py_c2h"]
+EXTRA_PROP_FILES = ["Props/C07Gen.lean"]
 KNOWN_ID = "C07-uri-append-initial-uri"
 STREAMS = {
     "sess": {"relevant": True, "desc": "sessions of the real client + reference team server, decoded with rsa-only / aes_rand / aes+hmac keys"},
@@ -71,6 +74,14 @@ STREAMS = {
     "malformed": {"relevant": False, "desc": "truncated / damaged captured messages: packets yielded before the exception"},
     "route": {"relevant": True, "desc": "get_transform_for_http decisions on (method, uri) grids around the configured verbs and URIs"},
     "ctor": {"relevant": False, "desc": "C2Http.__init__ key validation: order and kind of the exceptions"},
+    "g-route": {"relevant": False, "desc": "get_transform_for_http TRANSLATED from its source (Gen/PyC2H.lean) vs the method, on every case of route"},
+    "g-route-arg": {"relevant": False, "desc": "translated get_transform_for_http vs the method on arguments of other kinds: raw bytes (through the translated "
+                                               "parse_raw_http), responses, requests whose method / uri are not bytes, None, ints, str, tuples"},
+    "g-sess": {"relevant": False, "desc": "every session of sess / sess-keys / unrelated / multi / overlap / combo / malformed decoded by iter_recover_http TRANSLATED from "
+                                          "its source (one instance threaded as a value through the messages; all externals as in the hand model); when the translated "
+                                          "generator raises, only the exception is compared (items before it / the state then come from the hand model)"},
+    "g-ctor": {"relevant": False, "desc": "C2Http.__init__ TRANSLATED from its source vs the class on every case of ctor: the exception, or EVERY attribute of the "
+                                          "new instance (keys, verbs, URIs, the three transform objects, cache, BeaconKeys)"},
 }
 TRUSTED = [
     "tools/harness/c07.py: session generator, capturing peer, independent TLV / transform-program / team-server / RSA-padding "
@@ -81,6 +92,10 @@ TRUSTED = [
     "harness (pycryptodome / hashlib / hmac / own modexp called directly)",
     "httpx 0.28 / h11 0.16 serialisation of a request is NOT modelled: the model decodes the captured bytes; every captured "
     "request is checked to parse back to what the client handed to httpx (token ext)",
+    "tools/py2leanu.py + tools/gen/py_c2h.py (source text of C2Http.__init__ / get_transform_for_http -> Gen/PyC2H.lean) and the run-time "
+    "library Model/PyU.lean, PyU_T02.lean, PyU_T07.lean; Props/C07Gen.lean proves the translated definitions equal to routeRequest / "
+    "getTransformForHttp / mkDecoder; the g-* streams run them against the real class on every run (bconfig and RSA key objects are "
+    "records of what the code reads from them; RSA.import_key and derive_aes_hmac_keys are parameters)",
 ]
 ASSUMPTIONS = [
     "well-formed HTTP configuration (theorem hypotheses WellFormedCfg + WireCfg): token verbs not starting with HTTP/, URIs that are "
@@ -1638,7 +1653,106 @@ def impl_ctor(line):
     return f"ok {ob(k.aes_key)} {ob(k.hmac_key)} {C.hx(k.iv)} {C.tf(bool(c2http.priv))} {C.tf(c2http.verify_hmac)}"
 
 
+G_SESS = ("sess", "sess-keys", "unrelated", "multi", "overlap", "combo", "malformed")
+SIX_SETTINGS = ["SETTING_SUBMITURI", "SETTING_C2_VERB_POST", "SETTING_C2_VERB_GET", "SETTING_C2_POSTREQ", "SETTING_C2_REQUEST", "SETTING_C2_RECOVER"]
+
+
+def _other_priv(keysrc):
+    return "c2test" if keysrc == "own" else "own"
+
+
+def gctor_line(line):
+    """the `gctor` line of a `ctor` line: the same sections, then what the constructor reads from the real BeaconConfig (the six
+    settings, `uris`), the moduli of the public key and of the private key that is passed, and sha256(aes_rand)"""
+    w = line.split(" ")
+    head = w[:w.index("TB")]
+    src, keysrc = w[3], w[4]
+    c = Cur(w, 5)
+    parse_cfg_section(c)
+    keysec = parse_key_section(c)
+    bc, stem = bconfig_of(src)
+    with with_pubkey(stem, keysrc):
+        npub = RSA.import_key(bc.public_key).n
+    settings = {k: bc.settings[k] for k in SIX_SETTINGS}
+    settings = {k: (list(v) if isinstance(v, (list, tuple)) else v) for k, v in settings.items()}
+    npriv = {"N": "none", "T": str(priv_key(keysrc).n), "F": str(priv_key(_other_priv(keysrc)).n)}[keysec["priv"]]
+    digest = "none" if keysec["aes_rand"] is None else C.hx(sha256(keysec["aes_rand"]))
+    return " ".join(["gctor"] + head[1:] + ["GV", pyuval_t07.pshow(settings), pyuval_t07.pshow(list(bc.uris)), str(npub), npriv, digest])
+
+
+def _show_c2http(c):
+    pv = pyuval_t07.pshow
+    key = lambda k: "N" if k is None else f"I7705[i{k.n}]"  # noqa: E731
+    tr = lambda t: f"I6[{pv(list(t.tsteps))};{pv(list(t.rsteps))}]"  # noqa: E731
+    k = c.beacon_keys
+    return ";".join([pv(c.aes_key), pv(c.hmac_key), pv(c.verify_hmac), key(c.pub), key(c.priv), pv(c.submit_uri), pv(c.submit_verb),
+                     pv(tuple(c.get_uris)), pv(c.get_verb), tr(c.transform_submit), tr(c.transform_get), tr(c.transform_response),
+                     pv(c.metadata_cache), f"I7704[{pv(k.aes_key)};{pv(k.hmac_key)};{pv(k.iv)}]"])
+
+
+def impl_gctor(line):
+    w = line.split(" ")
+    c = Cur(w, 1)
+    c.expect("IM")
+    assert c.next() == "2"
+    src, keysrc = c.next(), c.next()
+    parse_cfg_section(c)
+    keysec = parse_key_section(c)
+    bc, stem = bconfig_of(src)
+    with with_pubkey(stem, keysrc):
+        c2http = real_c2http(bc, keysec, keysrc)
+    return "ok " + _show_c2http(c2http)
+
+
+def grarg_values(rng, cfg):
+    """arguments of other kinds for get_transform_for_http"""
+    gv, sv, su = cfg["get_verb"], cfg["submit_verb"], cfg["submit_uri"]
+    uris = cfg["get_uris"] or [b"/"]
+    u = rng.choice(uris)
+    req = lambda m, x: C2.HttpRequest(method=m, uri=x, params={}, headers={}, body=b"")  # noqa: E731
+    out = [None, 5, True, "GET", (gv, u), [gv, u], {},
+           C2.HttpResponse(status=200, headers={}, reason=b"OK", body=b"x"),
+           C2.HttpResponse(status=404, headers={b"A": b"b"}, reason=b"", body=b"", request=None),
+           req(gv, u), req(sv, su), req(gv.decode("latin-1"), u), req(gv, u.decode("latin-1")), req(gv, None), req(None, u), req(gv, 5),
+           req(sv, su.decode("latin-1")), req(sv, None), req(b"PUT", None), req(gv, (u,)),
+           gv + b" " + u + b" HTTP/1.1\r\nHost: a\r\n\r\n", sv + b" " + su + b"?a=b HTTP/1.1\r\n\r\nbody", b"PUT /zzz HTTP/1.1\r\n\r\n",
+           b"HTTP/1.1 200 OK\r\nA: b\r\n\r\nxyz", b"HTTP/1.1 2x0 OK\r\n\r\n", b"GET /", b"", gv + b" " + u + b"x/y?q=%41 HTTP/1.0\r\n\r\n"]
+    return out
+
+
+def impl_grarg(line):
+    w = line.split(" ")
+    c = Cur(w, 1)
+    c.expect("IM")
+    assert c.next() == "1"
+    src = c.next()
+    parse_cfg_section(c)
+    http = pyuval_t07.pparse(c.next())
+    bc, stem = bconfig_of(src)
+    with with_pubkey(stem, "own"):
+        c2http = C2.C2Http(bc, aes_key=bytes(16), hmac_key=bytes(16))
+    try:
+        t = c2http.get_transform_for_http(http)
+    except ValueError as e:
+        if isinstance(e, UnicodeError):
+            raise
+        return "none"
+    if t is c2http.transform_get:
+        return "get"
+    if t is c2http.transform_submit:
+        return "submit"
+    return "response" if t is c2http.transform_response else "?"
+
+
 def impl(stream, line):
+    if stream == "g-route":
+        return impl_route(line[1:])
+    if stream == "g-sess":
+        return impl_sess(line[1:])
+    if stream == "g-ctor":
+        return impl_gctor(line)
+    if stream == "g-route-arg":
+        return impl_grarg(line)
     op = line.split(" ", 1)[0]
     if op == "sess":
         return impl_sess(line)
@@ -1678,6 +1792,8 @@ def _known_active():
 
 
 def oracle(stream, line, out):
+    if stream.startswith("g-"):
+        return None
     if stream == "route":
         w = line.split(" ")
         c = Cur(w, 1)
@@ -1757,6 +1873,8 @@ def known(stream, line, known_list):
 
 
 def nontrivial(stream, line, out):
+    if stream.startswith("g-"):
+        return not out.startswith("exc ") and out != "none"
     if stream == "route":
         return out in ("get", "submit")
     if stream == "ctor":
@@ -1984,6 +2102,27 @@ SIDE_VARIANTS = ["rsa+keys", "rsa+rand", "aes-noverify", "aes-only", "rsa+aes", 
 
 
 def gen(tier, rng, shard, nshards):
+    """every `route` / `ctor` case is also run through the definitions translated from the source (g-*)"""
+    seen_cfg = 0
+    for stream, line in gen0(tier, rng, shard, nshards):
+        yield stream, line
+        if stream == "route":
+            yield "g-route", "g" + line
+            w = line.split(" ")
+            if line.endswith(" " + C.hx(b"/zzz")) and w[-2] == C.hx(b"PUT"):
+                # once per configuration: arguments of other kinds
+                seen_cfg += 1
+                c = Cur(w, 4)
+                cfg = parse_cfg_section(c)
+                for v in grarg_values(rng, cfg):
+                    yield "g-route-arg", " ".join(["grarg"] + w[1:-2] + [pyuval_t07.pshow(v)])
+        elif stream == "ctor":
+            yield "g-ctor", gctor_line(line)
+        elif stream in G_SESS:
+            yield "g-sess", "g" + line
+
+
+def gen0(tier, rng, shard, nshards):
     thorough = tier == "thorough"
     nreal = len(real_configs())
     k = 0
